@@ -221,10 +221,8 @@ def mon_ledger(h, obs, prop):
         if k0 in ("set", "add", "del"):
             a, k = ws[1], ws[2]
             v = None if k0 == "del" else ("" if ws[3] == "~" else ws[3])
-            if k0 != "add":
-                ref.journal.append(("st", (a, k), ref.st.get((a, k))))
-            else:
-                added_keys.add((a, k))
+            # AddState is journaled like SetState (since the fix: commit "journal AddState")
+            ref.journal.append(("st", (a, k), ref.st.get((a, k))))
             ref.st[(a, k)] = v
             dirty_keys.add((a, k))
         elif k0 == "setbal":
